@@ -217,7 +217,7 @@ class DenseEncoding(Encoding):
     @property
     def sparse_components(self):
         indices = self.sparse_indices
-        values = self.gather(indices)
+        values = self.gather_nd(indices)
         return indices, values
 
     @caching.cache_decorator
